@@ -79,6 +79,7 @@ class RelayWorld(object):
     self.route_checks = plan.get('route_checks', False)
     self.paused_seen = False
     self.removed_in_event = set()
+    self.changes_since_sweep = []
 
   # ------------------------------------------------------------------ set-up
   def install(self):
@@ -250,6 +251,13 @@ class RelayWorld(object):
     hard = self.hard_max
     mx = self.settings.MAX_QUEUE_SIZE
     f = d.factory
+    if not hi_priority and not self.router.hasDestination(d.dest):
+      # (also C07: a destination the router has given up gets nothing new to lose)
+      for pr in ('C16', 'C07'):
+        self.ctx.violation(pr, 'queued-for-unconfigured-destination', 'sendDatapoint',
+                           'datapoint %r was handed to %s, which the router does not have configured at '
+                           'that moment (configured: %d destinations)' % (
+                             metric, d.dest, self.router.countDestinations()))
     if not hi_priority:
       if attempts != 1:
         self.ctx.violation('C07', 'attempt-not-counted', 'attemptedRelays',
@@ -611,7 +619,23 @@ class RelayWorld(object):
     self.ctx.probe('membership_' + op)
     self.ctx.log.add('member', op, dest)
     if self.route_checks:
-      self.check_routing(op, dest, before)
+      # most runs look at the routing after every single change; some only every few
+      # changes, so that state remembered across two changes is not refreshed by the
+      # harness's own lookups in between
+      self.changes_since_sweep.append((op, dest))
+      every = self.plan.get('route_check_every', 1)
+      if len(self.changes_since_sweep) >= every:
+        self.sweep_routing()
+
+  def sweep_routing(self):
+    ch, self.changes_since_sweep = self.changes_since_sweep, []
+    if not ch:
+      return
+    if len(ch) == 1:
+      self.check_routing(ch[0][0], ch[0][1], None)
+    else:
+      self.ctx.probe('routing_checked_after_several_changes')
+      self.check_routing('several', None, None)
 
   def snapshot_prefs(self):
     return None
@@ -762,8 +786,9 @@ class RelayWorld(object):
     elif k == 'stop':
       self.do_stop()
     elif k == 'flood':
+      pad = 'x' * (op[2] if len(op) > 2 else 1)      # long names: messages of several 100 KB
       for i in range(op[1]):
-        self.arrive('fl%d.x' % i, (1000000.0 + i, float(-i - 1)))
+        self.arrive('fl%d.%s' % (i, pad), (1000000.0 + i, float(-i - 1)))
       self.ctx.probe('deep_backlog_flood')
     elif k == 'file':
       from . import boot
@@ -872,6 +897,15 @@ class RelayWorld(object):
   def heal(self):
     """Faults stop: every destination accepts connections and reads eagerly."""
     self.begin_event()
+    # ... and keeps its connections: the downstream idle timeout is switched off (an idle
+    # relay would otherwise be disconnected and reconnect for ever, with nothing to judge)
+    self.dn_idle = None
+    for d in self.dests.values():
+      for proto in d.peer_proto.values():
+        try:
+          proto.setTimeout(None)
+        except Exception:
+          pass
     for d in self.dests.values():
       d.stalled = False
       for t in d.conns:
@@ -896,14 +930,15 @@ class RelayWorld(object):
       self.r.run_due()
       self.end_event('heal')
       nd = self.r.next_due()
-      busy = any(d.factory.queue for d in self.dests.values() if self.router.hasDestination(d.dest)
-                 or d.factory.connectedProtocol) or \
+      busy = any(d.factory.queue for d in self.dests.values()
+                 if d.dest not in dead and (self.router.hasDestination(d.dest)
+                                            or d.factory.connectedProtocol)) or \
           any(c for c in self.r.pending_connects
               if not any(d.factory is c.factory and d.dest in dead for d in self.dests.values()))
       if not busy and not self.fake.queue:
         # let reload timers etc. run a little, then stop
         self.advance(1.0)
-        if not any(d.factory.queue for d in self.dests.values()):
+        if not any(d.factory.queue for d in self.dests.values() if d.dest not in dead):
           break
       if nd is None:
         break
@@ -1011,6 +1046,8 @@ class RelayWorld(object):
       self.advance(5.0)
     self.begin_event()
     self.end_event('final')
+    if self.route_checks:
+      self.sweep_routing()
     self.check_downstream()
     self.check_sent_counter()
     if self.paused_seen:
